@@ -76,6 +76,7 @@ Fixpoint w_expr (fuel : nat) (e : sexp) : option expr :=
       | SList [Atom "call"; s; t; SList args] =>
           match w_N s, w_ty t, wl args with
           | Some s', Some t', Some a' => Some (ECall s' t' a') | _, _, _ => None end
+      | SList [Atom "param"; i] => option_map EParam (w_N i)
       | SList [Atom "wide"; SList ns; SList ds] =>
           match wl ns, wl ds with Some n, Some d => Some (EWide n d) | _, _ => None end
       | _ => None
@@ -84,17 +85,24 @@ Fixpoint w_expr (fuel : nat) (e : sexp) : option expr :=
 
 Definition FUEL : nat := N.to_nat 100000.
 
+Definition w_param (e : sexp) : option (bool * N) :=
+  match e with
+  | SList [b; n] => match w_bool b, w_N n with Some b', Some n' => Some (b', n') | _, _ => None end
+  | _ => None
+  end.
+
+(* (sub ID "name" RET (params (BYREF SLOTUID)...) BODY [DEFERRED]) *)
 Definition w_routine (e : sexp) : option routine :=
   match e with
-  | SList (Atom "sub" :: i :: Str name :: rt :: na :: br :: body :: rest) =>
-      match w_N i, w_ty rt, w_N na, w_bool br, w_expr FUEL body with
-      | Some i', Some rt', Some na', Some br', Some b' =>
+  | SList (Atom "sub" :: i :: Str name :: rt :: SList (Atom "params" :: ps) :: body :: rest) =>
+      match w_N i, w_ty rt, w_list w_param ps, w_expr FUEL body with
+      | Some i', Some rt', Some ps', Some b' =>
           match rest with
-          | [] => Some (mkRoutine i' name rt' na' br' b' None)
-          | [d] => option_map (fun d' => mkRoutine i' name rt' na' br' b' (Some d')) (w_expr FUEL d)
+          | [] => Some (mkRoutine i' name rt' ps' b' None)
+          | [d] => option_map (fun d' => mkRoutine i' name rt' ps' b' (Some d')) (w_expr FUEL d)
           | _ => None
           end
-      | _, _, _, _, _ => None
+      | _, _, _, _ => None
       end
   | _ => None
   end.
